@@ -44,6 +44,48 @@ def spec_inverse(ctx, a, b):
                                      for sa, sb in zip(a, reversed(b))])
 
 
+# ------------------------------------------------------------------------------ preserved quantity across orientation flips
+@proof("C04", "Chop.copy_preserving/same-physical-end-after-any-number-of-flips", cases=[(p, a, b) for p in ("start_size", "end_size", "c2c_expansion", "total_expansion")
+                                                                                          for a in (False, True) for b in (False, True)],
+       functions=["classy_blocks.grading.chop:Chop.copy_preserving", "classy_blocks.grading.chop:Chop.invert"],
+       note="a chop handed on twice (block to neighbour to neighbour), each hop aligned or inverted; the calculated values of every "
+            "block are symbolic (they depend on that block's edge lengths): what the last copy asks for is the user's preserved "
+            "quantity, at the physically same end of the edge")
+def copy_preserving_hops(ctx):
+    from classy_blocks.grading.chop import Chop
+
+    preserve, inv1, inv2 = ctx.case
+    n = ctx.int("n", 1, 200)
+    given = ctx.real("given", lo=0.001, hi=100)
+    chop = Chop(count=n, preserve=preserve, **({preserve: given} if preserve != "count" else {}))
+    res = lambda tag, **fixed: {**{"count": n, "start_size": ctx.real(tag + "s", lo=0.001, hi=100), "end_size": ctx.real(tag + "e", lo=0.001, hi=100),
+                                   "c2c_expansion": ctx.real(tag + "c", lo=0.1, hi=10), "total_expansion": ctx.real(tag + "E", lo=0.01, hi=100)}, **fixed}
+    chop.results = res("r0", **{preserve: given})
+    c1 = chop.copy_preserving(inverted=inv1)
+
+    def expect(flipped):
+        """what a copy must ask for when it runs the same way (False) / the opposite way (True) as the user's chop"""
+        if preserve in ("start_size", "end_size"):
+            other = {"start_size": "end_size", "end_size": "start_size"}[preserve]
+            return (other if flipped else preserve), given
+        return preserve, (1 / given if flipped else given)
+
+    def asks_for(c, flipped):
+        name, value = expect(flipped)
+        others = [k for k in ("start_size", "end_size", "c2c_expansion", "total_expansion") if k != name]
+        if getattr(c, name) is None:
+            return False
+        return And(ctx.eq(getattr(c, name), value), all(getattr(c, k) is None for k in others), ctx.eq(c.count, n))
+
+    ctx.prove("first-copy-asks-for-the-users-quantity-at-the-same-physical-end", asks_for(c1, inv1))
+    # the neighbour calculates its own values (any), but the quantity it was asked to realise is realised
+    name1, value1 = expect(inv1)
+    c1.results = res("r1", **{name1: value1})
+    c2 = c1.copy_preserving(inverted=inv2)
+    ctx.prove("second-copy-asks-for-the-users-quantity-at-the-same-physical-end", asks_for(c2, inv1 != inv2))
+    ctx.prove("originals-untouched", ctx.eq(getattr(chop, preserve), given) and chop.preserve == preserve)
+
+
 # ------------------------------------------------------------------------------ G2 copy between coincident wires
 @proof("C04", "copy_neighbours/spec-copied-or-inverted", cases=["aligned", "inverted"],
        functions=[MG + "WirePropagateManager.copy_neighbours", "classy_blocks.grading.grading:Grading.inverted", "classy_blocks.items.wires.wire:Wire.is_aligned"])
@@ -179,7 +221,7 @@ def sizes(L, spec):
 
 
 @proof("C04", "bounded/preserve-and-shared-edges-on-unequal-lengths", level="B", samples=60,
-       cases=[(p, f) for p in ("start_size", "end_size", "c2c_expansion") for f in ("aligned", "flipped")],
+       cases=[(p, f) for p in ("start_size", "end_size", "c2c_expansion") for f in ("aligned", "flipped", "flipped-then-aligned", "aligned-then-flipped", "flipped-then-flipped")],
        functions=[MG + "WireChopManager.grade", "classy_blocks.grading.chop:Chop.copy_preserving", "classy_blocks.items.wires.axis:Axis.copy_grading"],
        note="bounded stand-in only: a loft between differently scaled/jittered faces (four unequal parallel edges) next to a second "
             "block that is numbered the same way or flipped; realised sizes decoded from Wire.grading with the wire length")
@@ -194,7 +236,16 @@ def preserve_bounded(ctx):
     shift = np.array([1.5, 0, 0])
     Q[0], Q[3], Q[4], Q[7] = P[1], P[2], P[5], P[6]
     Q[1], Q[2], Q[5], Q[6] = P[1] + shift + j(), P[2] + shift + j(), P[5] + shift + j(), P[6] + shift + j()
-    rot = 0 if flip == "aligned" else [i for i in range(24) if A.local_axis_of_global(i, 2) == (2, -1) and A.local_axis_of_global(i, 0)[0] == 0][0]
+    flipped_rot = [i for i in range(24) if A.local_axis_of_global(i, 2) == (2, -1) and A.local_axis_of_global(i, 0)[0] == 0][0]
+    rot = 0 if flip.startswith("aligned") else flipped_rot
+    # an optional third block beyond the second one: the chop reaches it second-hand, through the second block
+    rot3 = None
+    if "-then-" in flip:
+        rot3 = 0 if flip.endswith("aligned") else flipped_rot
+        T = Q.copy()
+        T[0], T[3], T[4], T[7] = Q[1], Q[2], Q[5], Q[6]
+        T[1], T[2], T[5], T[6] = Q[1] + shift + j(), Q[2] + shift + j(), Q[5] + shift + j(), Q[6] + shift + j()
+        T = T[list(A.ROT[rot3])]
     Q = Q[list(A.ROT[rot])]
     op1, op2 = A.make_operation(P), A.make_operation(Q)
     size = rng.uniform(0.02, 0.1)
@@ -208,9 +259,13 @@ def preserve_bounded(ctx):
     mesh = Mesh()
     mesh.add(op1)
     mesh.add(op2)
+    if rot3 is not None:
+        op3 = A.make_operation(T)
+        op3.chop(A.local_axis_of_global(rot3, 0)[0], count=2)
+        mesh.add(op3)
     mesh.assemble()
     mesh.grade()
-    b1, b2 = mesh.blocks
+    b1, b2 = mesh.blocks[:2]
     ax = b1.axes[2]
     for w in ax.wires:
         sz = sizes(w.length, w.grading.specification)
@@ -233,15 +288,17 @@ def preserve_bounded(ctx):
         ctx.prove("shared-edge-same-physical-cell-sizes", len(s0) == len(s1) and all(abs(a - b) <= 1e-6 * max(a, b) for a, b in zip(s0, s1)),
                   edge=sorted(key))
     # the propagated block realises the preserved size at the geometrically same end
-    l2, sgn = A.local_axis_of_global(rot, 2)
-    for w in b2.axes[l2].wires:
-        sz = sizes(w.length, w.grading.specification)
-        if sgn < 0:
-            sz = sz[::-1]
-        if preserve == "start_size":
-            ctx.prove("propagated-block-keeps-the-size-at-the-same-end", abs(sz[0] - size) <= 1e-4 * size, got=sz[0], want=size)
-        elif preserve == "end_size":
-            ctx.prove("propagated-block-keeps-the-size-at-the-same-end", abs(sz[-1] - size) <= 1e-4 * size, got=sz[-1], want=size)
+    reached = [(b2, rot)] + ([(mesh.blocks[2], rot3)] if rot3 is not None else [])
+    for hop, (bk, rk) in enumerate(reached):
+        l2, sgn = A.local_axis_of_global(rk, 2)
+        for w in bk.axes[l2].wires:
+            sz = sizes(w.length, w.grading.specification)
+            if sgn < 0:
+                sz = sz[::-1]
+            if preserve == "start_size":
+                ctx.prove("propagated-block-keeps-the-size-at-the-same-end", abs(sz[0] - size) <= 1e-4 * size, got=sz[0], want=size, hop=hop + 1)
+            elif preserve == "end_size":
+                ctx.prove("propagated-block-keeps-the-size-at-the-same-end", abs(sz[-1] - size) <= 1e-4 * size, got=sz[-1], want=size, hop=hop + 1)
     # simple grading only if the four edges really have equal gradings
     for b in mesh.blocks:
         text = b.format_grading()
